@@ -111,10 +111,10 @@ def tie(tag, module_path, funcs, tmpl_name, theorems, imports=""):
 
 
 COORD_FUNCS = ["check_region", "get_region", "pad_region", "spacing_to_size", "line_coordinates", "shape_to_spacing",
-               "grid_coordinates", "inside"]
+               "grid_coordinates", "inside", (os.path.join("verde", "projections.py"), "project_region")]
 COORD_THEOREMS = ["src_check_region_eq", "src_get_region_eq", "src_pad_region_scalar_eq", "src_pad_region_pair_eq",
                   "src_spacing_to_size_eq", "src_line_coordinates_eq", "src_shape_to_spacing_eq",
-                  "src_grid_coordinates_eq", "src_inside_eq"]
+                  "src_grid_coordinates_eq", "src_inside_eq", "src_project_region_eq"]
 COORD_IMPORTS = "From Verde Require Import Proofs.PyLiteBridge."
 
 
